@@ -870,8 +870,16 @@ impl CircuitBuilder {
                         (x2, x1, y2, y1),
                     ] {
                         if a1 == b1 {
-                            let a2_xor_b2 = self.push_gate(BuilderGate::Xor(a2, b2));
-                            return self.push_gate(BuilderGate::And(a1, a2_xor_b2));
+                            // the two gates are folded like any other gate (constants, negated
+                            // or equal operands, gates that exist already):
+                            let a2_xor_b2 = match self.optimize_xor(a2, b2) {
+                                Some(wire) => wire,
+                                None => self.push_gate(BuilderGate::Xor(a2, b2)),
+                            };
+                            return match self.optimize_and(a1, a2_xor_b2) {
+                                Some(wire) => wire,
+                                None => self.push_gate(BuilderGate::And(a1, a2_xor_b2)),
+                            };
                         }
                     }
                 }
